@@ -20,7 +20,7 @@ META = {
     'functions': ['geodepy.gnss.set_creation_time', 'geodepy.gnss.remove_stns_sinex', 'geodepy.gnss.remove_velocity_sinex',
                   'geodepy.gnss.remove_matrixzeros_sinex', 'geodepy.gnss.read_sinex_estimate', 'geodepy.gnss.read_sinex_matrix',
                   'geodepy.gnss.read_sinex_sites', 'geodepy.gnss.read_sinex_*_block'],
-    'bounds': {'clock': 'year 2000..2099, day of year 1..366, second of day [0, 86400) - symbolic', 'stations': '1..3 (quick) / 1..4 (thorough)',
+    'bounds': {'clock': 'year 2000..2099, day of year 1..366, second of day [0, 86400) - symbolic', 'stations': '1..3 (quick) / 1..6 (thorough)',
                'solution numbers': '1..3', 'velocities': 'with / without', 'matrix': 'L and U', 'removal set': 'every subset except all stations'},
     'outside': ['larger files, free-text comment contents, malformed input', 'numeric payloads are concrete (pairwise distinct) - part (b)/(c) is '
                 'bounded exhaustive path exploration; the solver decides the clock claim and path feasibility'],
